@@ -56,6 +56,8 @@ def generate_all_p(all_predicate: AllPredicate) -> Iterator:
 
         # TODO: combination of some true values, or just rewrite as any(false)
         values = take(max_length, generate_false(predicate))
+        if not values:
+            return  # nothing violates the predicate, so no iterable violates all_p
         yield random_combination_with_replacement(values, max_length)
 
 
@@ -170,5 +172,7 @@ def generate_set_of_p(set_of_predicate: SetOfPredicate) -> Iterator:
     predicate = set_of_predicate.predicate
 
     values = take(10, generate_false(predicate))
+    if not values:
+        return  # nothing violates the predicate, so no set violates set_of
 
     yield set(random_combination_with_replacement(values, 5))
